@@ -14,6 +14,17 @@ def py_slice_bound(x, n, default):
     return If(x < 0, Max(x + n, 0), x)
 
 
+def in_quantifier(s, n):
+    """the property quantifies over windows inside [0, n] and their negative / open spellings; an integer bound
+    above n is outside it (the code passes it through unclipped, which the readers tolerate in different ways)"""
+    r = []
+    if isinstance(s, SliceV):
+        for b in (s.start, s.stop):
+            if b is not None:
+                r.append(b <= n)
+    return r
+
+
 @contract
 class ProcessSlice(Contract):
     """C03/C14: negative and open-ended bounds resolve as for arrays (for ALL integer bounds
@@ -46,6 +57,7 @@ class ProcessSlice(Contract):
 
     def requires(self, self_=None, s=None, nmax=None, **kw):
         r = [nmax >= 0]
+        r += in_quantifier(s, nmax)
         if not isinstance(s, SliceV) and s is not None:
             # a scalar below -nmax is not an index of the table (arrays raise IndexError; the code
             # returns a negative range): outside the property's quantifier
@@ -99,3 +111,276 @@ class UnpackIndex(Contract):
             return out
         return {"row": row == key,
                 "col-all": isinstance(col, SliceV) and col.start is None and col.stop is None and col.step is None}
+
+
+# ---------------------------------------------------------------------------------------------
+# the selector objects: which slicer / fetcher call a subscript or a fetch turns into
+
+def _recorders(calls, fetch_result=None):
+    from pyvc.values import LibFunc
+
+    def slicer(I, *a, **k):
+        calls.append(("slice", a, k))
+        return calls_result
+    calls_result = Opaque("what the slicer returned")
+
+    def fetcher(I, *a, **k):
+        calls.append(("fetch", a, k))
+        return fetch_result
+    return LibFunc("slicer", slicer), LibFunc("fetcher", fetcher), calls_result
+
+
+def _row_keys(v, prefix=""):
+    """the row subscripts of the property: slices with every combination of open / integer bounds, and a scalar"""
+    for a_none in (False, True):
+        for b_none in (False, True):
+            yield (f"slice,a={'None' if a_none else 'int'},b={'None' if b_none else 'int'}",
+                   lambda v, a_none=a_none, b_none=b_none: SliceV(None if a_none else v.Int(prefix + "a"),
+                                                                  None if b_none else v.Int(prefix + "b"), None))
+    yield "scalar", lambda v: v.Int(prefix + "s")
+
+
+def _row_spec(key, n):
+    """(lo, hi) a row subscript selects, as for arrays"""
+    if isinstance(key, SliceV):
+        return py_slice_bound(key.start, n, 0), py_slice_bound(key.stop, n, n)
+    return mod(key, n), mod(key, n) + 1
+
+
+@contract
+class Selector1DGetitem(Contract):
+    """C14: a row subscript of a table selector invokes the slicer exactly once with the selector's columns and
+    the bounds an array would use; a column subscript returns a selector over those columns with the same
+    slicer, fetcher and length and reads nothing."""
+    target = f"{M}:RangeSelector1D.__getitem__"
+    props = ["C14"]
+
+    def configs(self, v):
+        def mk(kind, keyfn=None):
+            def f(v):
+                calls = []
+                sl, fe, res = _recorders(calls)
+                n = v.Int("nmax")
+                fields = Opaque("fields")
+                slf = v.Obj("RangeSelector1D", M, fields=fields, _slice=sl, _fetch=fe, _shape=(n,))
+                if kind == "row":
+                    key = keyfn(v)
+                elif kind == "row-in-1-tuple":
+                    key = (keyfn(v),)
+                elif kind == "2-tuple":
+                    key = (v.Int("r"), v.Int("c"))
+                elif kind == "column":
+                    key = "count"
+                else:
+                    key = ["bin1_id", "count"]
+                return dict(self=slf, key=key, __ghost__={"calls": calls, "res": res, "n": n, "kind": kind})
+            return f
+        for lbl, kf in _row_keys(v):
+            yield "row:" + lbl, mk("row", kf)
+        for lbl, kf in _row_keys(v):
+            yield "1-tuple:" + lbl, mk("row-in-1-tuple", kf)
+        yield "2-tuple", mk("2-tuple")
+        yield "column", mk("column")
+        yield "columns", mk("columns")
+
+    def _row(self, key):
+        return key[0] if isinstance(key, tuple) and len(key) == 1 else key
+
+    def requires(self, self_, key):
+        g = self._v.path.ghost
+        r = [g["n"] >= 0]
+        k = self._row(key)
+        if g["kind"].startswith("row"):
+            r += in_quantifier(k, g["n"])
+        if g["kind"].startswith("row") and not isinstance(k, SliceV):
+            r.append(k >= -g["n"])
+        return r
+
+    @property
+    def raises(self):
+        def ierr(self_=None, key=None):
+            g = self._v.path.ghost
+            if g["kind"] == "2-tuple":
+                return True
+            k = self._row(key)
+            if g["kind"].startswith("row") and not isinstance(k, SliceV):
+                return k >= g["n"]
+            return False
+        return {"IndexError": ierr}
+
+    def ensures(self, result, self_, key):
+        g = self._v.path.ghost
+        calls, n = g["calls"], g["n"]
+        if g["kind"] in ("column", "columns"):
+            ok = isinstance(result, Obj) and getattr(result.cls, "name", "") == "RangeSelector1D"
+            out = {"a-selector-is-returned": ok, "nothing-is-read": len(calls) == 0}
+            if ok:
+                at = result.attrs
+                out["over-the-requested-columns"] = at["fields"] is key or at["fields"] == key
+                out["same-slicer-fetcher-length"] = And(at["_slice"] is self_.attrs["_slice"], at["_fetch"] is self_.attrs["_fetch"],
+                                                        at["_shape"][0] == n)
+            return out
+        out = {"slicer-called-exactly-once": len(calls) == 1 and calls[0][0] == "slice"}
+        if not out["slicer-called-exactly-once"]:
+            return out
+        _, a, k = calls[0]
+        lo, hi = _row_spec(self._row(key), n)
+        out["with-the-selectors-columns"] = len(a) == 3 and a[0] is self_.attrs["fields"] and not k
+        if len(a) == 3:
+            out["bounds-as-for-arrays"] = And(a[1] == lo, a[2] == hi)
+        out["returns-what-the-slicer-returned"] = result is g["res"]
+        return out
+
+
+@contract
+class Selector1DFetch(Contract):
+    """C14/C04: fetch(region) hands the region to the fetcher and the resulting row range, unchanged, to the
+    slicer with the selector's columns."""
+    target = f"{M}:RangeSelector1D.fetch"
+    props = ["C14", "C04"]
+
+    def configs(self, v):
+        def mk(has_fetcher):
+            def f(v):
+                calls = []
+                lo, hi = v.Int("f.lo"), v.Int("f.hi")
+                sl, fe, res = _recorders(calls, (lo, hi))
+                fields = Opaque("fields")
+                slf = v.Obj("RangeSelector1D", M, fields=fields, _slice=sl, _fetch=fe if has_fetcher else None, _shape=(v.Int("nmax"),))
+                region = Opaque("region")
+                return dict(self=slf, args=(region,), kwargs={},
+                            __ghost__={"calls": calls, "res": res, "lo": lo, "hi": hi, "region": region, "has": has_fetcher})
+            return f
+        yield "fetcher", mk(True)
+        yield "no-fetcher", mk(False)
+
+    @property
+    def raises(self):
+        return {"NotImplementedError": lambda **a: not self._v.path.ghost["has"]}
+
+    def ensures(self, result, self_, args, kwargs):
+        g = self._v.path.ghost
+        calls = g["calls"]
+        out = {"fetcher-then-slicer": [c[0] for c in calls] == ["fetch", "slice"]}
+        if not out["fetcher-then-slicer"]:
+            return out
+        out["region-passed-unchanged"] = len(calls[0][1]) == 1 and calls[0][1][0] is g["region"] and not calls[0][2]
+        a = calls[1][1]
+        out["range-passed-unchanged"] = len(a) == 3 and a[0] is self_.attrs["fields"] and And(a[1] == g["lo"], a[2] == g["hi"])
+        out["returns-what-the-slicer-returned"] = result is g["res"]
+        return out
+
+
+@contract
+class Selector2DGetitem(Contract):
+    """C03: a matrix subscript invokes the slicer exactly once with the selector's field and the row / column
+    bounds an array would use (a missing column subscript means all columns)."""
+    target = f"{M}:RangeSelector2D.__getitem__"
+    props = ["C03"]
+
+    def configs(self, v):
+        def mk(shape, rf=None, cf=None):
+            def f(v):
+                calls = []
+                sl, fe, res = _recorders(calls)
+                n, m = v.Int("nrows"), v.Int("ncols")
+                field = Opaque("field")
+                slf = v.Obj("RangeSelector2D", M, field=field, _slice=sl, _fetch=fe, _shape=(n, m))
+                row = rf(v) if rf else None
+                col = cf(v) if cf else None
+                key = {"pair": (row, col), "1-tuple": (row,), "bare": row, "triple": (v.Int("x"), v.Int("y"), v.Int("z"))}[shape]
+                return dict(self=slf, key=key, __ghost__={"calls": calls, "res": res, "n": n, "m": m, "row": row, "col": col,
+                                                           "shape": shape})
+            return f
+        rows = list(_row_keys(v, "r."))
+        cols = list(_row_keys(v, "c."))
+        for rl, rf in rows:
+            for cl, cf in cols:
+                yield f"pair:{rl};{cl}", mk("pair", rf, cf)
+            yield f"1-tuple:{rl}", mk("1-tuple", rf)
+            yield f"bare:{rl}", mk("bare", rf)
+        yield "triple", mk("triple")
+
+    def requires(self, self_, key):
+        g = self._v.path.ghost
+        # contact matrices are square: Cooler.matrix builds the selector with shape (nbins, nbins) (its contract's
+        # clause "shape"); a change that is only visible on a non-square selector does not touch the property
+        r = [g["n"] >= 0, g["m"] == g["n"]]
+        r += in_quantifier(g["row"], g["n"]) + in_quantifier(g["col"], g["m"])
+        if g["row"] is not None and not isinstance(g["row"], SliceV):
+            r.append(g["row"] >= -g["n"])
+        if g["col"] is not None and not isinstance(g["col"], SliceV):
+            r.append(g["col"] >= -g["m"])
+        return r
+
+    @property
+    def raises(self):
+        def ierr(self_=None, key=None):
+            g = self._v.path.ghost
+            if g["shape"] == "triple":
+                return True
+            conds = []
+            if g["row"] is not None and not isinstance(g["row"], SliceV):
+                conds.append(g["row"] >= g["n"])
+            if g["col"] is not None and not isinstance(g["col"], SliceV):
+                conds.append(g["col"] >= g["m"])
+            return Or(*conds) if conds else False
+        return {"IndexError": ierr}
+
+    def ensures(self, result, self_, key):
+        g = self._v.path.ghost
+        calls = g["calls"]
+        out = {"slicer-called-exactly-once": len(calls) == 1 and calls[0][0] == "slice"}
+        if not out["slicer-called-exactly-once"]:
+            return out
+        _, a, k = calls[0]
+        i0, i1 = _row_spec(g["row"], g["n"])
+        j0, j1 = _row_spec(g["col"], g["m"]) if g["col"] is not None else (0, g["m"])
+        out["with-the-selectors-field"] = len(a) == 5 and a[0] is self_.attrs["field"] and not k
+        if len(a) == 5:
+            out["row-bounds-as-for-arrays"] = And(a[1] == i0, a[2] == i1)
+            out["column-bounds-as-for-arrays"] = And(a[3] == j0, a[4] == j1)
+        out["returns-what-the-slicer-returned"] = result is g["res"]
+        return out
+
+
+@contract
+class Selector2DFetch(Contract):
+    """C03/C04: fetch(region[, region2]) hands its arguments to the fetcher and the four bounds, unchanged and in
+    order, to the slicer with the selector's field."""
+    target = f"{M}:RangeSelector2D.fetch"
+    props = ["C03", "C04"]
+
+    def configs(self, v):
+        def mk(has_fetcher, two):
+            def f(v):
+                calls = []
+                b = tuple(v.Int(nm) for nm in ("f.i0", "f.i1", "f.j0", "f.j1"))
+                sl, fe, res = _recorders(calls, b)
+                field = Opaque("field")
+                slf = v.Obj("RangeSelector2D", M, field=field, _slice=sl, _fetch=fe if has_fetcher else None,
+                            _shape=(v.Int("nrows"), v.Int("ncols")))
+                regs = (Opaque("region"), Opaque("region2")) if two else (Opaque("region"),)
+                return dict(self=slf, args=regs, kwargs={}, __ghost__={"calls": calls, "res": res, "b": b, "regs": regs,
+                                                                        "has": has_fetcher})
+            return f
+        yield "one-region", mk(True, False)
+        yield "two-regions", mk(True, True)
+        yield "no-fetcher", mk(False, False)
+
+    @property
+    def raises(self):
+        return {"NotImplementedError": lambda **a: not self._v.path.ghost["has"]}
+
+    def ensures(self, result, self_, args, kwargs):
+        g = self._v.path.ghost
+        calls = g["calls"]
+        out = {"fetcher-then-slicer": [c[0] for c in calls] == ["fetch", "slice"]}
+        if not out["fetcher-then-slicer"]:
+            return out
+        fa = calls[0][1]
+        out["regions-passed-unchanged-in-order"] = len(fa) == len(g["regs"]) and all(x is y for x, y in zip(fa, g["regs"])) and not calls[0][2]
+        a = calls[1][1]
+        out["bounds-passed-unchanged-in-order"] = len(a) == 5 and a[0] is self_.attrs["field"] and And(*[a[i + 1] == g["b"][i] for i in range(4)])
+        out["returns-what-the-slicer-returned"] = result is g["res"]
+        return out
